@@ -53,6 +53,18 @@ func PlanCases(prop, tier string, seed int64) (cases []*Case, rule []string) {
 		add(n(70, 900), "2-4 built segments with random deletions: flat merge, two left bracketings (deletions inside / translated through DocumentNumbers), right bracketing, single-segment merges; full dumps of all variants", func() *Case { return g.AssocCase() })
 	case "C18":
 		add(n(150, 2500), "DocsMatchingTerms over mixed, repeated, unknown-field and unknown-term lists", func() *Case { return g.DocsMatchingCase() })
+	case "C10":
+		add(n(30, 400), "build or merge, dump, reload from memory and from a file (the model-compared part: the current code round-trips its own files)", func() *Case { return g.PersistLoad() })
+	case "C12":
+		add(n(20, 300), "merge and persist workloads whose complete output is compared with the model (the fault-free baseline of the fault enumeration)", func() *Case { return g.PersistLoad() })
+	case "C14":
+		add(n(60, 900), "build a random batch and dump it: the model is a function of the batch alone, so equality with it is independence from history", func() *Case { return g.BuildObs(false) })
+	case "C15":
+		add(n(40, 600), "merge trees whose inputs are dumped again after the merges took place", func() *Case { return g.ImmutCase() })
+	case "C19":
+		add(n(20, 300), "file-backed segments read without faults (the baseline of the fault enumeration)", func() *Case { return g.PersistLoad() })
+	case "C09":
+		add(n(20, 300), "sequential baseline: reads of built, merged and loaded segments compared with the model", func() *Case { return g.IterCase(6) })
 	default:
 		panic("no plan for property " + prop)
 	}
@@ -98,6 +110,14 @@ func NontrivialTags(prop string) map[string]bool {
 		set("merge", "drops_and_survivors")
 	case "C11":
 		set("repersist_loaded")
+	case "C10", "C12", "C19":
+		set("merge", "multi_chunk", "empty_batch", "zero_survivors")
+	case "C14":
+		set("multi_chunk", "repeated_field", "composite_loc")
+	case "C15":
+		set("merge")
+	case "C09":
+		set("merged", "loaded", "built")
 	case "C17":
 		set("three_inputs_drop_nonlast", "drops")
 	case "C18":
